@@ -178,6 +178,9 @@ pub struct ActorSpec {
     /// virtual time `stopped()` takes (so that something that wrongly limits or races it shows)
     #[serde(default)]
     pub stopped_sleep: u64,
+    /// a timer registered from inside `stopped()` (it belongs to the incarnation that is ending)
+    #[serde(default)]
+    pub stopped_timer: Option<TimerSpec>,
 }
 impl ActorSpec {
     /// mailbox bound the library really applies: only the builder entry points take it
@@ -207,6 +210,7 @@ impl Default for ActorSpec {
             stopped_yields: 0,
             cfg_order: 0,
             stopped_sleep: 0,
+            stopped_timer: None,
         }
     }
 }
@@ -279,6 +283,8 @@ pub enum Op {
     JoinFinish,
     /// ... or drop the oldest kept join future without ever polling it
     JoinDiscard,
+    /// ... or poll the oldest kept join future once and keep it if it is still pending
+    JoinPoll,
 
     // ---- handle manipulation
     Clone { h: Slot, to: Slot },
